@@ -213,7 +213,17 @@ fn oversize() -> SimResult {
     let msgs: Vec<Message> = (0..prefix_ok).map(|_| Message { data: bytes(choose(max.min(40))) }).collect();
     let msgs: Vec<Message> = msgs.into_iter().filter(|m| prost::Message::encoded_len(m) <= max).collect();
     let mut stream = encode_all(&msgs);
-    put_varint(over as u64, &mut stream);
+    // one run in four declares a length that does not even fit a usize (ten or more continuation bytes): above every limit
+    let beyond_usize = choose(4) == 0;
+    if beyond_usize {
+        stream.extend(std::iter::repeat(0xFFu8).take(10 + choose(6)));
+        if choose(2) == 0 {
+            stream.push(0x01);
+        }
+        probe("length_prefix_beyond_usize");
+    } else {
+        put_varint(over as u64, &mut stream);
+    }
     note_val("max", max as u64);
     note_val("prefix", msgs.len() as u64);
     let cfg = PipeCfg::draw();
@@ -234,7 +244,7 @@ fn oversize() -> SimResult {
     // NOTE: the stream stays open and no payload byte follows.
     run_until_idle();
     let got = got.borrow();
-    ensure!(got.len() == msgs.len() + 1, "C57/oversize-not-rejected-early", "declared {over} > max {max}: decoder produced {} items, expected {} ok + 1 error without waiting for payload", got.len(), msgs.len());
+    ensure!(got.len() == msgs.len() + 1, "C57/oversize-not-rejected-early", "declared {over} > max {max} (prefix beyond usize: {beyond_usize}): decoder produced {} items, expected {} ok + 1 error without waiting for payload", got.len(), msgs.len());
     ensure!(got.last().unwrap().is_err(), "C57/oversize-accepted", "oversize frame not rejected: {:?}", got.last());
     ensure!(got[..msgs.len()].iter().map(|x| x.clone().ok()).collect::<Vec<_>>() == msgs.iter().cloned().map(Some).collect::<Vec<_>>(), "C57/oversize-prefix", "valid frames before the oversize one were not delivered intact");
     mark_nontrivial();
